@@ -7,6 +7,7 @@ import (
 	"go/printer"
 	"go/token"
 	"go/types"
+	"golang.org/x/tools/go/types/typeutil"
 	"os"
 	"reflect"
 	"sort"
@@ -37,6 +38,9 @@ import (
 // KnownFuncsFile is set by the command to /verif/checker/known_funcs.txt.
 var KnownFuncsFile string
 
+// knownFingerprints: key -> body fingerprint of the known function (or, for variables, the literals of its initialiser).
+var knownFingerprints = map[string][]string{}
+
 // loadKnownFuncs reads the known-functions file: key (module, package, declaration name) -> signature shape.
 func loadKnownFuncs() map[string]string {
 	if KnownFuncsFile == "" {
@@ -55,15 +59,19 @@ func loadKnownFuncs() map[string]string {
 		if l == "" || strings.HasPrefix(l, "#") {
 			continue
 		}
-		parts := strings.SplitN(l, "\t", 4)
+		parts := strings.SplitN(l, "\t", 5)
 		if len(parts) < 3 {
 			continue
 		}
 		sig := ""
-		if len(parts) == 4 {
+		if len(parts) >= 4 {
 			sig = parts[3]
 		}
-		out[strings.Join(parts[:3], "\t")] = sig
+		key := strings.Join(parts[:3], "\t")
+		out[key] = sig
+		if len(parts) == 5 && parts[4] != "" {
+			knownFingerprints[key] = strings.Split(parts[4], "\x1f")
+		}
 	}
 	return out
 }
@@ -120,6 +128,35 @@ func NameOf(o interface{ Name() string }) string {
 	return o.Name()
 }
 
+// VarInitLiterals returns the string and character literals of the initialiser of a package-level variable.
+func VarInitLiterals(p *packages.Package, o types.Object) []string {
+	var out []string
+	for _, file := range p.Syntax {
+		for _, d := range file.Decls {
+			gd, ok := d.(*ast.GenDecl)
+			if !ok || gd.Tok != token.VAR {
+				continue
+			}
+			for _, sp := range gd.Specs {
+				vs := sp.(*ast.ValueSpec)
+				for i, nm := range vs.Names {
+					if p.TypesInfo.Defs[nm] != o || i >= len(vs.Values) {
+						continue
+					}
+					ast.Inspect(vs.Values[i], func(n ast.Node) bool {
+						if bl, ok := n.(*ast.BasicLit); ok && (bl.Kind == token.STRING || bl.Kind == token.CHAR) && !strings.ContainsAny(bl.Value, "\n\t\x1f") {
+							out = append(out, bl.Value)
+						}
+						return true
+					})
+				}
+			}
+		}
+	}
+	sort.Strings(out)
+	return out
+}
+
 // TypeShape renders what a rename of a type leaves unchanged: the underlying type with struct field names dropped.
 func TypeShape(tn *types.TypeName) string {
 	q := types.RelativeTo(tn.Pkg())
@@ -135,6 +172,82 @@ func TypeShape(tn *types.TypeName) string {
 		return "interface " + strings.Join(strings.Fields(types.TypeString(u, q)), " ")
 	}
 	return strings.Join(strings.Fields(types.TypeString(u, q)), " ")
+}
+
+// FuncFingerprint is what a rename, a change of signature or of receiver leaves (mostly) unchanged in a function: the
+// functions of other modules it calls, the literals it mentions, and the shape of its control flow.
+func FuncFingerprint(info *types.Info, modulePath string, fd *ast.FuncDecl) []string {
+	if fd.Body == nil {
+		return nil
+	}
+	var toks []string
+	kinds := map[string]int{}
+	ast.Inspect(fd.Body, func(n ast.Node) bool {
+		switch x := n.(type) {
+		case *ast.CallExpr:
+			if f, _ := typeutil.Callee(info, x).(*types.Func); f != nil && f.Pkg() != nil {
+				if !strings.HasPrefix(f.Pkg().Path(), modulePath) {
+					name := f.Pkg().Path() + "." + f.Name()
+					if r := RecvNamed(f); r != nil {
+						name = f.Pkg().Path() + "." + r.Obj().Name() + "." + f.Name()
+					}
+					toks = append(toks, "c:"+name)
+				}
+			} else if id, ok := unparen(x.Fun).(*ast.Ident); ok {
+				if _, isB := info.Uses[id].(*types.Builtin); isB {
+					toks = append(toks, "b:"+id.Name)
+				}
+			}
+		case *ast.BasicLit:
+			if x.Value != "0" && x.Value != "1" && len(x.Value) < 80 && !strings.ContainsAny(x.Value, "\n\t\x1f") {
+				toks = append(toks, "l:"+x.Value)
+			}
+		case *ast.IfStmt:
+			kinds["if"]++
+		case *ast.ForStmt, *ast.RangeStmt:
+			kinds["loop"]++
+		case *ast.SwitchStmt, *ast.TypeSwitchStmt:
+			kinds["switch"]++
+		case *ast.ReturnStmt:
+			kinds["return"]++
+		case *ast.DeferStmt:
+			kinds["defer"]++
+		case *ast.SelectorExpr:
+			// selections of exported fields and methods of other modules' types
+			if sel := info.Selections[x]; sel != nil && sel.Obj().Pkg() != nil && !strings.HasPrefix(sel.Obj().Pkg().Path(), modulePath) {
+				toks = append(toks, "s:"+sel.Obj().Name())
+			}
+		}
+		return true
+	})
+	for k, n := range kinds {
+		// control-flow counts are coarse on purpose: a refactoring may add or remove one or two branches
+		toks = append(toks, fmt.Sprintf("k:%s%d", k, (n+1)/2))
+	}
+	sort.Strings(toks)
+	if len(toks) > 120 {
+		toks = toks[:120]
+	}
+	return toks
+}
+
+// fingerprintSimilarity is the Jaccard index of two token multisets.
+func fingerprintSimilarity(a, b []string) float64 {
+	if len(a) == 0 || len(b) == 0 {
+		return 0
+	}
+	ca := map[string]int{}
+	for _, t := range a {
+		ca[t]++
+	}
+	inter := 0
+	for _, t := range b {
+		if ca[t] > 0 {
+			ca[t]--
+			inter++
+		}
+	}
+	return float64(inter) / float64(len(a)+len(b)-inter)
 }
 
 // renamedFuncs maps a function that was recognised as the renamed successor of a known function to the old simple
@@ -301,6 +414,104 @@ func FoldNewHelpers(m *Module) []string {
 			renamedFuncs.Store(fs[0], oldSimple)
 			log = append(log, rel+"."+oldDecl+" renamed to "+fs[0].Name())
 			delete(fo.fresh, fs[0])
+			present[key] = true
+		}
+		// second stage, for functions whose signature or receiver changed as well: a vanished function and a new one are
+		// the same function when their bodies have (nearly) the same fingerprint — the same calls into other modules, the
+		// same literals, the same control-flow shape — and each is the other's best match by a clear margin
+		{
+			type fpOf struct {
+				key string
+				fp  []string
+			}
+			var vanished []fpOf
+			for key := range known {
+				if !strings.HasPrefix(key, prefix) || present[key] || strings.Contains(strings.TrimPrefix(key, prefix), " ") {
+					continue
+				}
+				if fp := knownFingerprints[key]; len(fp) >= 3 {
+					vanished = append(vanished, fpOf{key, fp})
+				}
+			}
+			freshFP := map[*types.Func][]string{}
+			for f, fd := range fo.fresh {
+				freshFP[f] = FuncFingerprint(fo.info, m.Path, fd)
+			}
+			best := func(fp []string, among map[*types.Func][]string) (*types.Func, float64, float64) {
+				var bf *types.Func
+				b1, b2 := 0.0, 0.0
+				for f, g := range among {
+					if s := fingerprintSimilarity(fp, g); s > b1 {
+						bf, b2, b1 = f, b1, s
+					} else if s > b2 {
+						b2 = s
+					}
+				}
+				return bf, b1, b2
+			}
+			for _, v := range vanished {
+				f, s1, s2 := best(v.fp, freshFP)
+				if f == nil || s1 < 0.7 || s1-s2 < 0.1 {
+					continue
+				}
+				// mutual: no other vanished function fits f better
+				mutual := true
+				for _, w := range vanished {
+					if w.key != v.key && fingerprintSimilarity(w.fp, freshFP[f]) >= s1 {
+						mutual = false
+					}
+				}
+				if !mutual {
+					continue
+				}
+				oldDecl := strings.TrimPrefix(v.key, prefix)
+				oldSimple := oldDecl
+				if i := strings.LastIndex(oldDecl, "."); i >= 0 {
+					oldSimple = oldDecl[i+1:]
+				}
+				if m.Renamed == nil {
+					m.Renamed = map[string]*types.Func{}
+				}
+				m.Renamed[rel+"\t"+oldDecl] = f
+				renamedFuncs.Store(f, oldSimple)
+				log = append(log, fmt.Sprintf("%s.%s is now %s (body similarity %.2f)", rel, oldDecl, f.Name(), s1))
+				delete(fo.fresh, f)
+				delete(freshFP, f)
+			}
+		}
+		// interface methods follow their implementations: if every renamed method old -> new has an interface of the package
+		// declaring new (and not old), that interface method is known to the rules as old
+		for key, f := range m.Renamed {
+			if !strings.HasPrefix(key, rel+"\t") {
+				continue
+			}
+			oldSimple, _ := renamedFuncs.Load(f)
+			if oldSimple == nil || oldSimple.(string) == f.Name() {
+				continue
+			}
+			for _, name := range p.Types.Scope().Names() {
+				tn, ok := p.Types.Scope().Lookup(name).(*types.TypeName)
+				if !ok {
+					continue
+				}
+				it, ok := tn.Type().Underlying().(*types.Interface)
+				if !ok {
+					continue
+				}
+				hasOld := false
+				var newM *types.Func
+				for i := 0; i < it.NumMethods(); i++ {
+					if it.Method(i).Name() == oldSimple.(string) {
+						hasOld = true
+					}
+					if it.Method(i).Name() == f.Name() {
+						newM = it.Method(i)
+					}
+				}
+				if newM != nil && !hasOld {
+					renamedFuncs.Store(newM, oldSimple.(string))
+				}
+			}
 		}
 		if len(fo.fresh) == 0 {
 			continue
@@ -881,8 +1092,14 @@ func (fo *folder) foldStmt(s ast.Stmt, within *ast.FuncDecl) ([]ast.Stmt, bool) 
 		switch x.(type) {
 		case *ast.FuncLit:
 			return false
-		case *ast.DeferStmt, *ast.LabeledStmt:
+		case *ast.LabeledStmt:
 			bad = true
+		case *ast.DeferStmt:
+			// a deferred call of a helper invoked as `return h(…)` still runs when the caller returns: the copy keeps
+			// its meaning there, and nowhere else
+			if !tail {
+				bad = true
+			}
 		}
 		return !bad
 	})
@@ -1280,14 +1497,49 @@ func (fo *folder) typeAndFieldRenames(m *Module, rel string, known map[string]st
 				}
 			}
 		}
+		matched := map[string]bool{}
 		for oldName, os := range cands {
 			if len(os) == 1 && hits[os[0]] == 1 {
 				renamed[os[0]] = oldName
+				matched[oldName] = true
 				if m.RenamedObjs == nil {
 					m.RenamedObjs = map[string]types.Object{}
 				}
 				m.RenamedObjs[rel+"\t"+oldName] = os[0]
 				*log = append(*log, rel+"."+kind+" "+oldName+" renamed to "+os[0].Name())
+			}
+		}
+		// a variable whose type changed too (a map used as a set turned into a lookup table) is recognised by the
+		// literals of its initialiser
+		if kind == "var" {
+			for key := range known {
+				if !strings.HasPrefix(key, prefix+"var ") {
+					continue
+				}
+				oldName := strings.TrimPrefix(key, prefix+"var ")
+				fp := knownFingerprints[key]
+				if scope.Lookup(oldName) != nil || matched[oldName] || len(fp) == 0 {
+					continue
+				}
+				var hit types.Object
+				n := 0
+				for _, o := range freshObjs {
+					if _, done := renamed[o]; done {
+						continue
+					}
+					if g := VarInitLiterals(p, o); len(g) > 0 && fingerprintSimilarity(fp, g) >= 0.99 {
+						hit = o
+						n++
+					}
+				}
+				if n == 1 {
+					renamed[hit] = oldName
+					if m.RenamedObjs == nil {
+						m.RenamedObjs = map[string]types.Object{}
+					}
+					m.RenamedObjs[rel+"\t"+oldName] = hit
+					*log = append(*log, rel+".var "+oldName+" is now "+hit.Name()+" (same initialiser literals)")
+				}
 			}
 		}
 	}
